@@ -373,12 +373,47 @@ std::string runATask(long v, long us, const std::string &seq, long dseed)
   return out;
 }
 
+static long g_lastInit = 0;   // thread count of the last `init` line of the case (0 = none yet)
+
+// dep n: n times, one after the other: a scheduled task schedules a child and then waits (spinning, at most 3 s) until
+// the child has run. With at least two worker threads besides the caller an idle worker must pick the child up while the
+// parent is still busy ("eventually, with no further action required": a queued task and an idle worker => it runs).
+static std::string doDep(long n)
+{
+  struct Flags { std::atomic<int> childRan{0}, parentDone{0}, timedOut{0}; };
+  long late = 0;
+  for (long i = 0; i < n; ++i) {
+    std::shared_ptr<Flags> f(new Flags);
+    tasking::schedule([f] {
+      tasking::schedule([f] { f->childRan = 1; });
+      auto t0 = std::chrono::steady_clock::now();
+      while (!f->childRan.load()) {
+        if (std::chrono::steady_clock::now() - t0 > std::chrono::seconds(3)) { f->timedOut = 1; break; }
+        std::this_thread::yield();
+      }
+      f->parentDone = 1;
+    });
+    auto t0 = std::chrono::steady_clock::now();
+    while (!f->parentDone.load() && std::chrono::steady_clock::now() - t0 < std::chrono::seconds(20))
+      std::this_thread::yield();
+    if (!f->parentDone.load() || f->timedOut.load())
+      ++late;
+  }
+  return "done=" + std::to_string(n) + " child-not-picked-up=" + std::to_string(late);
+}
+
 std::string step(const std::vector<std::string> &w)
 {
   const std::string &op = w[0];
   if (op == "init" && w.size() == 2) {
     tasking::initTaskingSystem((int)vh::to_ll(w[1]));
+    g_lastInit = vh::to_ll(w[1]);
     return "ok";
+  }
+  if (op == "dep" && w.size() == 2) {
+    if (g_lastInit < 3)
+      return "skip";   // needs two workers besides the caller
+    return doDep(vh::to_ll(w[1]));
   }
   if (op == "sched" && w.size() == 4) {
     size_t n = (size_t)vh::to_ll(w[1]);
